@@ -166,15 +166,15 @@ def r4_r6_outputs(ctx):
     fi = repo.func(RUN)
     outs = ("b", "a", "c")
     pub = {dsid("T", "a"), dsid("T", "c")}
-    for n_yield in (2, 3, 4, 1):
-        vals = [f"r{i}" for i in range(n_yield)]
+    for n_yield in (2, 3, 4, 1, "3+None"):
+        vals = [f"r{i}" for i in range(n_yield)] if isinstance(n_yield, int) else ["r0", "r1", "r2", None]
         paths, calls = _explore_run(repo, _task({}, {}, outs), {}, pub, lambda v=vals: _ConcreteIter(list(v)))
         ctx.evals(len(paths))
         exits = {p.exit[0] for p in paths}
         if n_yield != 3:
             if exits != {"raise"}:
                 ctx.violation("C10.R4", fi.qual, loc(fi), "output count check",
-                              f"3 declared outputs, generator yields {n_yield}: run ends with {sorted(exits)} instead of raising "
+                              f"3 declared outputs, generator yields {n_yield} values{' (the surplus one is None)' if n_yield == '3+None' else ''}: run ends with {sorted(exits)} instead of raising "
                               f"(a count mismatch must become a task failure)")
             else:
                 ctx.ok("C10.R4", loc(fi), f"3 declared outputs, {n_yield} yielded -> raises")
@@ -230,3 +230,25 @@ def r5_output_naming(ctx):
 
 
 RULES = [r1_r2_lowering, r3_binding, r4_r6_outputs, r_last_output_order, r5_output_naming]
+
+
+def r7_memory_flush(ctx):
+    """C10.R7: Memory.flush drops only locals that are not backed by a fetched shm buffer; afterwards every buffered dataset is still
+    available locally (provide() treats "buffer held but no local value" as corruption and fails the task)."""
+    repo = ctx.repo
+    fi = repo.func("cascade.executor.runner.memory.Memory.flush")
+    ctx.analysed(fi.qual)
+    A, B = dsid("TA"), dsid("TB")
+    paths = Interp(repo).explore(fi, env={"self.local": {A: 1, B: 2}, "self.bufs": {B: Atom("BUF")}})
+    ctx.evals(len(paths))
+    for p in paths:
+        loc_after, bufs_after = p.heap["self.local"], p.heap["self.bufs"]
+        if p.exit[0] != "return" or set(loc_after) != {B} or set(bufs_after) != {B}:
+            ctx.violation("C10.R7", fi.qual, loc(fi), "flush keeps buffered inputs",
+                          f"locals {{A (computed here), B (fetched from shm, buffer held)}}: after flush locals={vkey(loc_after)} buffers={vkey(bufs_after)}; expected B kept in both — "
+                          f"a second consumer of B in a later task sequence would otherwise fail with 'internal data corruption'")
+        else:
+            ctx.ok("C10.R7", loc(fi), "flush drops unbuffered locals only")
+
+
+RULES.append(r7_memory_flush)
